@@ -298,6 +298,10 @@ def run(cfg, seed, kill, script=None, rmc=False):
     return out
 
 
+class _Skip(Exception):
+    pass
+
+
 def run_special(cfg, seed, scenario):
     """Further ways a connection ends (C02 'for any reason'):
     'local-close:c' / 'local-close:s' — a forceful local close() issued by one task while other tasks of the same application
@@ -312,6 +316,8 @@ def run_special(cfg, seed, scenario):
         is empty) | keyless-vs-keyed (a client without credentials at a keyed port); then a compatible client from the same address.
     'ticket-again:<seconds>' — an ordinary session with a fresh ticket, a graceful disconnect, and <seconds> later the SAME credentials
         (byte-identical ticket) presented to the same server again.
+    'cancelled-exit:<seconds>' — the client's connection block is left by cancellation (a time-out scope) after <seconds> while
+        tasks outside the block are blocked in recv / recv_unreliable on the connection object.
     'unread-unreliable:<side>' — <side> (c|s) sends 150 unreliable datagrams that the receiving application never reads, then
         reliable traffic, a graceful disconnect and a reconnect must go on as usual;
     'extra-substreams:<who>' — <who> (c|s) is configured with 3 substreams, the peer with 1 (negotiated: 1); the application has a
@@ -500,7 +506,37 @@ def run_special(cfg, seed, scenario):
                     stream_ref["stream"] = transport.ports.get(1, 10)
                     ci = op_start("connect")
                     log.append(("app", sim.now(), "c", "connect", 0, b""))
+                    if kind == "cancelled-exit":
+                        # the connection block is left by CANCELLATION (a time-out scope around the session) while tasks outside the block
+                        # still use the connection object: they must be released, later calls must see a closed connection, and the peer
+                        # — who is told nothing — must notice through its keep-alive
+                        holder, ready = {}, anyio.Event()
+                        async def outside(fn):
+                            await ready.wait()
+                            await fn("c", holder["client"])
+                        try:
+                            async with anyio.create_task_group() as otg:
+                                otg.start_soon(outside, reader)
+                                otg.start_soon(outside, ureader)
+                                with anyio.move_on_after(quant(float(arg))) as scope:
+                                    async with prudp.connect(s, SERVER[0], SERVER[1], credentials=creds) as client:
+                                        op_end(ci, "ok")
+                                        out.rnd["c"] = (client.sequence_mgr.initial_unreliable_id, client.connection_check, client.local_session_id)
+                                        holder["client"] = client; ready.set()
+                                        await send("c", client, b"hello " * 5)
+                                        await anyio.sleep(quant(1000.0))
+                                closed_at["c"] = sim.now()
+                                out.skip_l1 = True
+                                await late_recv("c", client)
+                                await send("c", client, b"late")
+                        except BaseException as e:
+                            out.errors.append(("client", repr(e)))
+                        raise_after = True
+                    else:
+                        raise_after = False
                     try:
+                        if raise_after:
+                            raise _Skip()
                         async with prudp.connect(s, SERVER[0], SERVER[1], credentials=creds) as client:
                             op_end(ci, "ok")
                             out.rnd["c"] = (client.sequence_mgr.initial_unreliable_id, client.connection_check, client.local_session_id)
@@ -538,6 +574,8 @@ def run_special(cfg, seed, scenario):
                             xi = op_start("async-with-exit")
                         op_end(xi, "returned")
                         log.append(("app", sim.now(), "c", "closed", 0, b""))
+                    except _Skip:
+                        pass
                     except BaseException as e:
                         if out.ops[ci][2] is None:
                             op_end(ci, "failed")
